@@ -186,12 +186,15 @@ def check_line_primitive(rep, src, rule, sites, why, minimum=1):
                 continue
             found += 1
             n += 1
+            shown = what
+            # (the construct is named without the receiver's spelling, so that a renamed local is the same finding)
+            what = ('str.' + fn.attr + '()') if isinstance(fn, ast.Attribute) and fn.attr in ('splitlines',) else what
             via = '' if owner is f else ' (in %s, called from %s)' % (owner.qual, f.qual)
             if okay:
                 rep.ok(rule, f.site, 'line primitive `%s`%s' % (what, via), 'only a newline ends a line')
             else:
                 rep.fail(rule, f.site, 'line primitive `%s`%s' % (what, via), '%s: `%s` also ends a line at VT, FF, FS, GS, RS, U+0085, U+2028, U+2029 and a lone CR, e.g. the text '
-                         '"a\\u2028b" is cut into two lines (a file object with the same text yields one)' % (why, what), where='%s:%d' % (owner.module.relpath, c.lineno))
+                         '"a\\u2028b" is cut into two lines (a file object with the same text yields one)' % (why, shown), where='%s:%d' % (owner.module.relpath, c.lineno))
         if not found:
             raise AnalysisError('%s: no line-splitting primitive found (the anchor moved?)' % f.site)
     if n < minimum:
